@@ -9,7 +9,7 @@ import (
 
 	"github.com/sarchlab/akita/v4/mem/vm"
 	"github.com/sarchlab/mgpusim/v4/amd/insts"
-	vh "verif/harness/lib"
+	"verifharness/vh"
 )
 
 // ByteVal is one byte of memory / LDS.
@@ -240,6 +240,13 @@ func memCase(alu string, m mop, r *vh.Rng, k int) Case {
 		}
 		if k >= memGrid {
 			o0, o1 = r.Intn(12), r.Intn(12)
+		}
+		switch m.op {
+		case 13, 30, 54, 118, 223, 255: // one address: offset1 is the high byte of the 16-bit offset
+			o1 = 0
+			if k == 4 {
+				o1 = 1
+			}
 		}
 		c.Words = encDS(m.op, o0, o1, addr, d0, d1, vdst)
 		c.Kinds = []string{"ds"}
